@@ -113,6 +113,8 @@ var xlDomWhitelist = []xlFunc{
 	{Pkg: "dom", Recv: "listImpl", Name: "AsSlice", Lean: "listAsSlice", Plain: true},
 	{Pkg: "dom", Name: "DefaultNodeMappingFn", Lean: "DefaultNodeMappingFn", Plain: true},
 	{Pkg: "dom", Name: "DefaultNodeEncoderFn", Lean: "DefaultNodeEncoderFn", Plain: true},
+	// analytics/dependency_resolver.go: the default placeholder matcher `hasPlaceholderFunc(ph)(val)`  [C19]
+	{Pkg: "analytics", Name: "hasPlaceholderFunc", Lean: "hasPlaceholderFunc", Curried: true},
 	// diff/diff.go  [C07]
 	{Pkg: "diff", Name: "appendMod", Lean: "appendMod", Acc: "res"},
 	{Pkg: "diff", Name: "flattenLeaf", Lean: "flattenLeaf", Acc: "res"},
@@ -1052,7 +1054,10 @@ func (x *xl) optionMatch(y *ast.IfStmt, rest []ast.Stmt, k *cont) ([]string, boo
 	if ta, isTA := as.Rhs[0].(*ast.TypeAssertExpr); isTA && len(as.Lhs) == 2 && ta.Type != nil {
 		// if l, ok := n.(dom.List); ok {A} else {B}
 		fn := map[string]string{"list": "GoDom.asList?", "cont": "GoDom.asContainer?", "leaf": "GoDom.asLeaf?"}[domKind(x.typeOf(ta.Type))]
-		if fn == "" || domKind(x.typeOf(ta.X)) != "node" {
+		if bt, ok := x.typeOf(ta.Type).(*types.Basic); ok && bt.Kind() == types.String && domKind(x.typeOf(ta.X)) == "any" {
+			// s, ok := v.(string) on a leaf's value
+			fn = "GoDom.anyString?"
+		} else if fn == "" || domKind(x.typeOf(ta.X)) != "node" {
 			return nil, true, x.errf(y, "comma-ok type assertion from %s to %s", x.typeOf(ta.X), x.typeOf(ta.Type))
 		}
 		cid, ok := y.Cond.(*ast.Ident)
@@ -1332,6 +1337,9 @@ func (x *xl) callWhitelisted(c *ast.CallExpr, fn *types.Func) ([]string, string,
 	} else {
 		return nil, "", x.errf(c, "call of %s (neither whitelisted nor a supported primitive)", funcKey(fn))
 	}
+	if cf.Curried {
+		return nil, "", x.errf(c, "call of the curried function %s", fn.Name())
+	}
 	if cf.Acc == "$recv" && !x.inStmtCall {
 		return nil, "", x.errf(c, "call of %s (it mutates its receiver) whose result is used: only the statement form rebinds the receiver", fn.Name())
 	}
@@ -1481,6 +1489,16 @@ func (x *xl) funcValueCall(c *ast.CallExpr, id *ast.Ident) ([]string, string, bo
 // domStdlib: standard-library calls with a restricted argument shape
 func (x *xl) domStdlib(c *ast.CallExpr, key string) ([]string, string, bool, error) {
 	switch key {
+	case "strings.Contains", "strings.HasSuffix":
+		if len(c.Args) != 2 {
+			return nil, "", true, x.errf(c, "call of %s", key)
+		}
+		bs, es, err := x.exprs(c.Args)
+		if err != nil {
+			return nil, "", true, err
+		}
+		prim := map[string]string{"strings.Contains": "GoDom.stringsContains", "strings.HasSuffix": "GoDom.hasSuffix"}[key]
+		return bs, "(" + prim + " " + es[0] + " " + es[1] + ")", true, nil
 	case "strings.Split":
 		// strings.Split(s, sep) for a CONSTANT ONE-CHARACTER separator
 		if len(c.Args) != 2 {
@@ -1724,4 +1742,24 @@ func (x *xl) declThenAssign(s ast.Stmt, rest []ast.Stmt) bool {
 		return true
 	})
 	return !mentions
+}
+
+// curriedLit: the function literal of a body that is exactly `return func(…) … { … }`
+func (x *xl) curriedLit(fd *ast.FuncDecl) (*ast.FuncLit, *types.Signature, error) {
+	if len(fd.Body.List) != 1 {
+		return nil, nil, x.errf(fd, "Curried: the body is not a single return of a function literal")
+	}
+	rs, ok := fd.Body.List[0].(*ast.ReturnStmt)
+	if !ok || len(rs.Results) != 1 {
+		return nil, nil, x.errf(fd, "Curried: the body is not a single return of a function literal")
+	}
+	lit, ok := rs.Results[0].(*ast.FuncLit)
+	if !ok {
+		return nil, nil, x.errf(fd, "Curried: the body is not a single return of a function literal")
+	}
+	lsig, ok := x.p.info.Types[lit].Type.(*types.Signature)
+	if !ok || lsig.Variadic() {
+		return nil, nil, x.errf(fd, "Curried: signature of the literal")
+	}
+	return lit, lsig, nil
 }
